@@ -107,8 +107,10 @@ def _pure(repo, col):
     # the local copies exist (positive instances for the evidence)
     ex = idx.expander(repo, fi)
     for name in ("externals", "external_inds"):
+        # the local that is initialised from module.<name> (whatever the local is called)
         n = next((x for x in walk_no_nested(fi.node) if isinstance(x, ast.Assign) and isinstance(x.targets[0], ast.Name)
-                  and x.targets[0].id == name and "module." + name in unparse(x.value)), None)
+                  and any(isinstance(y, ast.Attribute) and y.attr == name and isinstance(y.value, ast.Name) and y.value.id == fi.params[0]
+                          for y in ast.walk(x.value))), None)
         if n is None:
             raise AnalysisError(f"integrate: local `{name}` is no longer initialised from module.{name}")
         col.check(E.fresh(ex.term(n.value), fi), R, fi, f"integrate: local {name} is a fresh copy",
@@ -116,7 +118,7 @@ def _pure(repo, col):
     b = repo.func(IG, "build_init_and_step_fn")
     exb = idx.expander(repo, b)
     n = next((x for x in walk_no_nested(b.node) if isinstance(x, ast.Assign) and isinstance(x.targets[0], ast.Name)
-              and x.targets[0].id == "external_inds"), None)
+              and any(isinstance(y, ast.Attribute) and y.attr == "external_inds" for y in ast.walk(x.value))), None)
     if n is not None:
         col.check(E.fresh(exb.term(n.value), b), R, b, "build_init_and_step_fn: external_inds is a fresh copy",
                   unparse(n.value), f"`{unparse(n)}` aliases the module's dictionary", node=n)
@@ -387,9 +389,10 @@ def _scan(repo, col, R="R-C06-scan"):
 
     def levels_of(x):
         """('all' | 'rest') if x is lengths / lengths[1:]"""
-        if x.op == "param" and x.name == "lengths":
+        LEN_ = inner.params[3] if len(inner.params) > 3 else "lengths"
+        if x.op == "param" and x.name == LEN_:
             return "all"
-        if x.op == "sub" and x.args[0].op == "param" and x.args[0].name == "lengths" and x.args[1].op == "slice" and \
+        if x.op == "sub" and x.args[0].op == "param" and x.args[0].name == LEN_ and x.args[1].op == "slice" and \
                 x.args[1].args[0].op == "const" and x.args[1].args[0].name == 1 and x.args[1].args[1].name is None:
             return "rest"
         return None
@@ -434,7 +437,9 @@ def _scan(repo, col, R="R-C06-scan"):
             verdict = "VIOLATED"
     if base.op != "callv" and rec.op == "callv":
         base, rec = rec, base
-    ok = base.op == "callv" and [a.pretty() for a in base.args] == ["scan_fn", "f", "init", "xs", "lengths[0]"]
+    PI = list(inner.params) + [None] * 6   # roles by POSITION: (f, init, xs, lengths, scan_fn, checkpoint_fn), whatever they are called
+    P_F, P_INIT, P_XS, P_LEN, P_SCAN, P_CKPT = PI[:6]
+    ok = base.op == "callv" and [a.pretty() for a in base.args] == [P_SCAN, P_F, P_INIT, P_XS, f"{P_LEN}[0]"]
     col.check(ok, R, inner, "innermost level: scan_fn(f, init, xs, lengths[0])", base.short(), f"base case returns {base.short()}",
               node=inner.node)
     col.add(R, inner, "base case when exactly one level is left", verdict,
@@ -447,7 +452,7 @@ def _scan(repo, col, R="R-C06-scan"):
         carry, out = rec.args
         scan_call = carry.args[0] if carry.op == "item" else None
         ok_c = carry.op == "item" and carry.name == 0 and scan_call is not None and scan_call.op == "callv" and \
-            scan_call.args[0].pretty() == "scan_fn"
+            scan_call.args[0].pretty() == P_SCAN
         col.check(ok_c, R, inner, "outer level returns the carry produced by its scan",
                   "carry, out = scan_fn(sub_scans, init, xs, lengths[0]); return carry, ...",
                   f"the carry returned by a nested level is {carry.short(80)}: not the final carry of its scan, so the "
@@ -456,18 +461,18 @@ def _scan(repo, col, R="R-C06-scan"):
             a = [x.pretty() for x in scan_call.args]
             fn_arg = scan_call.args[1] if len(scan_call.args) > 1 else None
             wrapped = False
-            if fn_arg is not None and fn_arg.op == "callv" and fn_arg.args[0].op == "param" and fn_arg.args[0].name == "checkpoint_fn" and \
+            if fn_arg is not None and fn_arg.op == "callv" and fn_arg.args[0].op == "param" and fn_arg.args[0].name == P_CKPT and \
                     len(fn_arg.args) == 2 and fn_arg.args[1].op == "localfn":
                 wrapped = True
                 fn_arg = fn_arg.args[1]
             if fn_arg is not None and fn_arg.op == "localfn":
                 sub_ex = exi.nested.get(fn_arg.name)
-            col.check(sub_ex is not None and a[2:] == ["init", "xs", "lengths[0]"], R, inner,
+            col.check(sub_ex is not None and a[2:] == [P_INIT, P_XS, f"{P_LEN}[0]"], R, inner,
                       "outer scan: scan_fn(<block function>, init, xs, lengths[0])",
                       str(a), f"outer scan is called with {a}", node=inner.node)
             if sub_ex is not None:
                 deco = [unparse(d) for d in sub_ex.fi.node.decorator_list]
-                col.check((deco == ["checkpoint_fn"]) != wrapped, R, sub_ex.fi, "the block function is wrapped by checkpoint_fn exactly once",
+                col.check((deco == [P_CKPT]) != wrapped, R, sub_ex.fi, "the block function is wrapped by checkpoint_fn exactly once",
                           "decorator or explicit checkpoint_fn(...)", f"decorators {deco}, explicit wrap {wrapped}: the blocks are "
                           f"{'checkpointed twice' if wrapped and deco else 'not checkpointed'}", node=sub_ex.fi.node)
         ok_o = out.op == "mcall" and out.name == "tree_map" and out.args[1].pretty() in ("jnp.concatenate", "np.concatenate") and \
@@ -483,9 +488,9 @@ def _scan(repo, col, R="R-C06-scan"):
         r = sub_ex.returns[0] if sub_ex.returns else None
         pp = sub_ex.fi.params
         ok = r is not None and r.op == "call" and r.name == "_inner_nested_scan" and len(r.args) == 6 and len(pp) == 2 and \
-            r.args[0].op == "param" and r.args[0].name == "f" and \
+            r.args[0].op == "param" and r.args[0].name == P_F and \
             r.args[1].op == "param" and r.args[1].name == pp[0] and r.args[2].op == "param" and r.args[2].name == pp[1] and \
-            r.args[3].pretty() == "lengths[slice(1, None, None)]" and r.args[4].pretty() == "scan_fn" and r.args[5].pretty() == "checkpoint_fn"
+            r.args[3].pretty() == f"{P_LEN}[slice(1, None, None)]" and r.args[4].pretty() == P_SCAN and r.args[5].pretty() == P_CKPT
         col.check(ok, R, sub_ex.fi, "the block function recurses with (f, ITS carry, ITS inputs, lengths[1:])", "the remaining levels",
                   f"the block function returns {r.short(160) if r else None}: every block must continue from the carry it receives "
                   f"(not from the closed-over initial state) over its own slice of the inputs", node=sub_ex.fi.node)
@@ -505,8 +510,17 @@ def checkpoint_padding(repo, col, R):
     """integrate: padding to prod(checkpoint_lengths) at the END, with zeros."""
     ig = repo.func(IG, "integrate")
     exg = idx.expander(repo, ig)
-    pads = [s for s in exg.stores if s.kind == "sub" and unparse(s.node).startswith("externals[") and
-            any(g.op == "not" and "checkpoint_lengths" in g.pretty() for g in s.guards)]
+    def given(g):
+        """the guard says that checkpoint_lengths was given (is not None), whatever the polarity of the test in the source"""
+        pol = True
+        while g.op == "not" or (g.op == "unary" and g.name == "Not"):
+            g, pol = g.args[0], not pol
+        if g.op == "cmp" and g.name in ("is", "is not", "==", "!=") and len(g.args) == 2 and \
+                any(a_.op == "param" and a_.name == "checkpoint_lengths" for a_ in g.args) and \
+                any(a_.op == "const" and a_.name is None for a_ in g.args):
+            return ((g.name in ("is not", "!=")) == pol)
+        return False
+    pads = [s for s in exg.stores if s.kind == "sub" and unparse(s.node).startswith("externals[") and any(given(g) for g in s.guards)]
     if not pads:
         raise AnalysisError("integrate: padding of externals for checkpointing not found")
     for s in pads:
